@@ -8,8 +8,8 @@ import (
 
 // Name pools are deliberately tiny so that duplicates, prefixes and
 // concatenation collisions are the norm.
-var typeNamePool = []string{"a", "b", "ab", "a_b", "a-b", "t1", "t2", "author", "authors", "articles", "users", "c", "bc", "x9"}
-var fieldNamePool = []string{"a", "b", "ab", "a_b", "a-b", "author", "authors", "f1", "f2", "name", "title", "c", "bc", "rel", "z", "n0", "created-at", "k_1", "Name", "AB", "Z"}
+var typeNamePool = []string{"a", "b", "ab", "a_b", "a-b", "t1", "t2", "author", "authors", "articles", "users", "c", "bc", "x9", "café"}
+var fieldNamePool = []string{"a", "b", "ab", "a_b", "a-b", "author", "authors", "f1", "f2", "name", "title", "c", "bc", "rel", "z", "n0", "created-at", "k_1", "Name", "AB", "Z", "prénom", "名前", "first name"}
 
 func genDistinctNames(r *RNG, pool []string, n int) []string {
 	p := r.Perm(len(pool))
@@ -235,6 +235,9 @@ func genVal(r *RNG, k int, null bool) Val {
 		v.Sec, v.Nsec, v.Off = genTime(r)
 	case k == KBytes:
 		v.Bytes = genBytes(r)
+		if r.Chance(1, 10) {
+			v.Bytes, v.NilSlice = nil, true
+		}
 	}
 	return v
 }
